@@ -722,7 +722,18 @@ func buildFieldType(ww *conversionVisitor, node sourcewalk.FieldNode) (*descript
 			proto.SetExtension(desc.Options, ext_j5pb.E_Key, entityExt)
 		}
 
-		ww.setJ5Ext(node.Source, desc.Options, "key", st.Key.Ext)
+		keyExt := ww.setJ5Ext(node.Source, desc.Options, "key", st.Key.Ext)
+		if keyExt != nil && st.Key.Format != nil {
+			// uuid and id62 are recognised by their validation rule, the
+			// other formats only exist in the annotation.
+			switch ff := st.Key.Format.Type.(type) {
+			case *schema_j5pb.KeyFormat_Informal_:
+				keyExt.GetKey().Type = &ext_j5pb.KeyField_Format_{Format: ext_j5pb.KeyField_FORMAT_UNSPECIFIED}
+			case *schema_j5pb.KeyFormat_Custom_:
+				keyExt.GetKey().Type = &ext_j5pb.KeyField_Pattern{Pattern: ff.Custom.Pattern}
+			}
+			proto.SetExtension(desc.Options, ext_j5pb.E_Field, keyExt)
+		}
 
 		if st.Key.ListRules != nil {
 			var fkt list_j5pb.IsForeignKeyRules_Type
